@@ -23,6 +23,10 @@ EXTRA_KEYS = ["zz1", "__extra__", "Zz", "unknown key"]
 
 def field_node(rng):
     r = rng.random()
+    if r < 0.12:
+        # types whose dumped form differs from the value (omit_default has to compare the VALUE with the default)
+        return rng.choice([lambda: spec.SCALAR_BY_KIND["date"], lambda: spec.SCALAR_BY_KIND["UUID"], lambda: spec.SCALAR_BY_KIND["bytes"], lambda: spec.EnumT(spec.EInt),
+                           lambda: spec.IterT("List", spec.SCALAR_BY_KIND["date"])])()
     if r < 0.45:
         return spec.IntT()
     if r < 0.7:
@@ -262,6 +266,13 @@ def check_program(ctx, rng, kind, fields, recipe, lay, modes):  # noqa: C901, PL
             ctx.evaluated(("dump", model.src, repr(desc["recipe"]), repr(x)[:200], dt.name), nontrivial=True)
             ctx.count("dumps")
             ok = got.kind == "ok" and (strict_eq(got.value, ref) or (sieved and strict_eq(L.prune_empty(got.value), L.prune_empty(ref))))
+            if not ok and got.kind == "ok" and sieved:
+                alt = L.ref_dump(lay, model, x, omit_on_dumped=True)
+                if strict_eq(got.value, alt) or strict_eq(L.prune_empty(got.value), L.prune_empty(alt)):
+                    ctx.violation("omit-default-compares-dumped-value", f"omit_default: adaptix {got!r}, documented {ref!r}: a field whose value equals its default is kept "
+                                  f"(or one that differs is dropped) because the DUMPED value is compared with the raw default [{mode_name(dt, sc)}]",
+                                  {**desc, "x": repr(x), "adaptix": repr(got), "reference": repr(ref), "mode": mode_name(dt, sc)})
+                    ok = True
             if not ok:
                 ctx.violation(_dump_key(lay, got, ref), f"dump differs from the documented layout: adaptix {got!r}, reference {ref!r} [{mode_name(dt, sc)}]",
                               {**desc, "x": repr(x), "adaptix": repr(got), "reference": repr(ref), "mode": mode_name(dt, sc)})
